@@ -302,6 +302,101 @@ def expected_member(member):
 	return with_comment(member['comment'], descriptor)
 
 
+class Inapplicable(Exception):
+	"""a member attribute that the type of the member does not have (apply_attributes raises AstException)"""
+
+
+def expected_applied_member(member):
+	"""the descriptor of a member once its attribute lines are applied (`AstPostProcessor.apply_attributes`), from the generated structure:
+	integers take `@sizeref(p[, n])`; arrays take `@is_byte_constrained`, `@alignment(n[, [not] pad_last])`, `@sort_key(p)`; the kind of an array is
+	`array fill` when its size is `__FILL__` (whatever its attributes), else `array sized` when `@is_byte_constrained` is among them, else `array`;
+	a later attribute of the same name overrides an earlier one; any other pairing is an error."""
+	descriptor = expected_member(member)
+	if not member.get('attributes'):
+		return descriptor
+	type_kind, type_value = member['type']
+	for attribute in member['attributes']:
+		name = attribute['name']
+		if 'int' == type_kind and 'sizeref' == name:
+			descriptor['sizeref'] = {'property_name': attribute['property'], 'delta': attribute['delta'] if attribute['delta'] is not None else 0}
+		elif 'array' == type_kind and 'is_byte_constrained' == name:
+			if '__FILL__' != type_value['size']:
+				descriptor['disposition'] = 'array sized'
+		elif 'array' == type_kind and 'sort_key' == name:
+			descriptor['sort_key'] = attribute['property']
+		elif 'array' == type_kind and 'alignment' == name:
+			descriptor['alignment'] = attribute['value']
+			descriptor['is_last_element_padded'] = 'not pad_last' != attribute['option']
+		else:
+			raise Inapplicable(f'{name} on {type_kind}')
+	return descriptor
+
+
+def expected_applied_descriptors(document):
+	"""descriptors after apply_attributes, or None when some member carries an attribute its type does not have"""
+	result = []
+	try:
+		for declaration in document['declarations']:
+			descriptor = expected_descriptor(declaration)
+			if 'struct' == declaration['kind']:
+				layout = [expected_applied_member(member) for member in declaration['members']]
+				descriptor = {**descriptor, 'layout': layout}
+			result.append(descriptor)
+	except Inapplicable:
+		return None
+	return result
+
+
+def attribute_matrix_documents(rng):
+	"""every array kind (counted by a number, sized by a member, __FILL__) x element type (integer, named) x every combination of the member
+	attributes an array takes (with every form of @alignment), in a random order, and every integer with and without @sizeref (delta or none);
+	plus each pairing the grammar admits but the type does not have."""
+	alignment_forms = [None, {'option': None}, {'option': 'pad_last'}, {'option': 'not pad_last'}]
+	declarations = []
+	taken_types = []
+	for size_kind in ('number', 'name', 'fill'):
+		for elem in (('int', rng.choice(INT_TYPES)), ('named', 'ElementType')):
+			members = []
+			taken = set()
+			for constrained in (False, True):
+				for alignment in alignment_forms:
+					for sorted_by in (False, True):
+						attributes = []
+						if constrained:
+							attributes.append({'name': 'is_byte_constrained'})
+						if alignment:
+							attributes.append({'name': 'alignment', 'value': gen_number(rng), 'option': alignment['option']})
+						if sorted_by:
+							attributes.append({'name': 'sort_key', 'property': gen_property_name(rng, set())})
+						rng.shuffle(attributes)
+						size = gen_number(rng) if 'number' == size_kind else '__FILL__' if 'fill' == size_kind else gen_property_name(rng, set())
+						members.append({
+							'kind': 'array', 'comment': None, 'attributes': attributes or None, 'name': gen_property_name(rng, taken), 'condition': None,
+							'type': ('array', {'elem': elem, 'size': size})})
+			declarations.append({
+				'kind': 'struct', 'name': gen_type_name(rng, set(taken_types)), 'comment': None, 'disposition': None, 'attributes': None, 'members': members})
+			taken_types.append(declarations[-1]['name'])
+	members = []
+	taken = set()
+	for int_type in INT_TYPES:
+		for delta in ('absent', None, gen_number(rng)):
+			attributes = None if 'absent' == delta else [{'name': 'sizeref', 'property': gen_property_name(rng, set()), 'delta': delta}]
+			members.append({'kind': 'plain', 'comment': None, 'attributes': attributes, 'name': gen_property_name(rng, taken), 'condition': None, 'type': ('int', int_type)})
+	declarations.append({'kind': 'struct', 'name': gen_type_name(rng, set(taken_types)), 'comment': None, 'disposition': None, 'attributes': None, 'members': members})
+	documents = [{'imports': [], 'declarations': [declaration], 'quirk': False} for declaration in declarations]
+	documents.append({'imports': [], 'declarations': declarations, 'quirk': False})
+	# pairings the type does not have: apply_attributes must refuse them
+	for type_pair, attribute in (
+			(('int', INT_TYPES[0]), {'name': 'alignment', 'value': 8, 'option': None}), (('int', INT_TYPES[1]), {'name': 'is_byte_constrained'}),
+			(('int', INT_TYPES[2]), {'name': 'sort_key', 'property': 'ab'}), (('named', 'OtherType'), {'name': 'sizeref', 'property': 'ab', 'delta': None}),
+			(('named', 'OtherType'), {'name': 'is_byte_constrained'}),
+			(('array', {'elem': ('int', INT_TYPES[0]), 'size': 4}), {'name': 'sizeref', 'property': 'ab', 'delta': 1})):
+		member = {'kind': 'plain', 'comment': None, 'attributes': [attribute], 'name': 'member_x', 'condition': None, 'type': type_pair}
+		documents.append({'imports': [], 'quirk': False, 'declarations': [
+			{'kind': 'struct', 'name': 'HolderType', 'comment': None, 'disposition': None, 'attributes': None, 'members': [member]}]})
+	return documents
+
+
 def expected_descriptor(declaration):
 	kind = declaration['kind']
 	if 'alias' == kind:
@@ -728,6 +823,9 @@ class Checker:
 			if model_imports != imports:
 				self.fail('corr', f'model and parser imports differ: {model_imports} vs {imports}', case)
 
+		if not crlf_finding:
+			self.check_applied(text, document, model, case)
+
 		# print the parsed declarations back and parse again (WFDecls: at least one declaration, at least one member per struct)
 		from catparser.ast import Struct
 		if not nodes or any(isinstance(node, Struct) and not node.fields for node in nodes):
@@ -766,6 +864,82 @@ class Checker:
 			second = self.model(model['print'])
 			if not second['ok'] or second['wire'] != model['wire']:
 				self.fail('corr', f'model: parse (print ds) differs from ds for {text[:300]!r}', dict(case, printed=model['print'], second=second))
+
+
+def real_applied(text):
+	"""('ok', nodes with their member attributes applied) | ('err', message): what catparser.__main__ describes and emits"""
+	from catparser.ast import AstException
+	from catparser.AstPostProcessor import AstPostProcessor
+	parsed = real_parse(text)
+	if 'ok' != parsed[0]:
+		return ('err', 'does not parse')
+	try:
+		AstPostProcessor(parsed[1]).apply_attributes()
+	except AstException as ex:
+		return ('err', str(ex))
+	return ('ok', parsed[1])
+
+
+def check_applied(self, text, document, model, case):
+	"""the same comparisons on the attribute-applied declarations: descriptors against what the document declares, against the model
+	(`toLegacy` after `applyAttributes`), and print / parse / apply again."""
+	# pylint: disable=too-many-locals,too-many-branches
+	ctx = self.ctx
+	from catparser.ast import Struct
+	applied = real_applied(text)
+	names = [node.name for node in real_parse(text)[1]]
+	if len(names) != len(set(names)):
+		ctx.count('applied:skipped-duplicate-names')  # (apply_attributes works on a name -> declaration map)
+		return
+	ctx.count('applied:' + applied[0])
+	descriptors = [cats_json.canon(node.to_legacy_descriptor()) for node in applied[1]] if 'ok' == applied[0] else None
+	if document is not None:
+		wanted = expected_applied_descriptors(document)
+		wanted = None if wanted is None else [cats_json.canon(item) for item in wanted]
+		if (wanted is None) != (descriptors is None):
+			self.fail('property', (
+				f'apply_attributes {"refuses" if descriptors is None else "accepts"} member attributes that the member types '
+				f'{"have" if descriptors is None else "do not have"} ({applied[1] if descriptors is None else ""}): {text[:300]!r}'), dict(case, stage='attributes applied'))
+			return
+		if wanted != descriptors:
+			from .cats_common import diff_paths
+			differences = diff_paths(wanted, descriptors)[:5] if len(wanted) == len(descriptors) else [('count', len(wanted), len(descriptors))]
+			self.fail('property', (
+				f'descriptors after apply_attributes are not what the document declares: {differences} in {text[:300]!r}'), dict(
+					case, differences=differences, stage='attributes applied'))
+			return
+	if model is not None and model['ok']:
+		model_applied = model['applied']
+		if model_applied['ok'] != (descriptors is not None):
+			self.fail('corr', f'model and apply_attributes differ on whether the member attributes apply: {model_applied.get("msg")} vs {applied[1] if descriptors is None else "ok"}', case)
+			return
+		if descriptors is not None:
+			if [cats_json.canon(item) for item in model_applied['legacy']] != descriptors:
+				self.fail('corr', f'model and parser descriptors after apply_attributes differ on {text[:300]!r}', dict(case, model=model_applied['legacy'], real=descriptors))
+				return
+			if model_applied['wire'] != cats_json.schema_to_wire(applied[1]):
+				self.fail('corr', f'model and parser objects after apply_attributes differ on {text[:300]!r}', dict(case, model=model_applied['wire']))
+				return
+			if model_applied['render'] != [render_tree(node) for node in applied[1]]:
+				self.fail('corr', f'model render and str(node) after apply_attributes differ on {text[:300]!r}', dict(
+					case, model=model_applied['render'], real=[render_tree(node) for node in applied[1]]))
+				return
+	if descriptors is None or not applied[1] or any(isinstance(node, Struct) and not node.fields for node in applied[1]):
+		return
+	# print the attribute-applied declarations back, parse, apply again: the same descriptors
+	for printer in (real_print, fixed_print):
+		printed = printer(applied[1])
+		again = real_applied(printed)
+		if 'ok' == again[0] and [cats_json.canon(node.to_legacy_descriptor()) for node in again[1]] == descriptors:
+			ctx.count('print-reparse-applied' if printer is real_print else 'print-reparse-applied:with-the-repaired-attribute-printer')
+			return
+	if 'UnexpectedToken' == real_parse(printed)[1] and is_quirk_site(printed, real_parse(printed)[2]):
+		return  # (the known lexing defect after a comment, reported by the first stage)
+	self.fail('property', f'print-and-reparse of the attribute-applied declarations changes the descriptors ({again[0]}): {printed[:400]!r}', dict(
+		case, printed=printed, stage='attributes applied'))
+
+
+Checker.check_applied = check_applied
 
 
 def shipped_files():
@@ -809,6 +983,13 @@ def run(ctx):
 		if 'ok' != real_parse(text)[0]:
 			ctx.fail('property', f'shipped schema file does not parse: {path}', {'path': path})
 		ctx.count('shipped-file')
+
+	# every array kind x every member attribute combination (and integers x @sizeref), attributes applied
+	for document in attribute_matrix_documents(rng):
+		expected = {'descriptors': [expected_descriptor(declaration) for declaration in document['declarations']], 'imports': []}
+		ctx.count('attribute-matrix-documents')
+		for trivia in (Trivia(None), Trivia(rng)):
+			checker.check_text(render_document(document, trivia), expected, 'attribute-matrix', document)
 
 	# generated documents
 	for _ in range(ctx.scale(1500, 10000)):
@@ -858,11 +1039,15 @@ MANIFEST = {
 		'parsed_comment_normal (every comment Comment.__init__ builds is in normal form), normal_comment_iff, comment_roundtrip / '
 		'comment_roundtrip_indented, comment_lines_one_token, the numeral theorems hex_numeral_value (0x + leading zeros + upper-case digits of n '
 		'reads n, all n), decimal_leading_zeros, hex_dec_same_value, hex_lowercase_not_numeral, decimal_numeral_roundtrip, and the trivia '
-		'theorems parse_crlf (all documents without carriage returns), parse_blank_lines, '
+		'array_descriptor_after_attributes (kind / size / printed form of an array member after apply_attributes, for every attribute list), '
+		'the trivia theorems parse_crlf (all documents without carriage returns), parse_blank_lines, '
 		'tab_is_four_spaces / tab_or_four_spaces_same_line. The model is tied to catbuffer.lark / CatsLarkParser.py '
 		'/ ast.py by a differential run on grammar-directed generated documents (every declaration, member and attribute form, comments, blank '
 		'lines, LF/CRLF, tab/4-space, decimal/hex) and on every shipped .cats file, comparing objects, to_legacy_descriptor(), str(node) and '
-		'print-and-reparse; the property is also evaluated directly on the real parser against descriptors computed from the generated structure.'),
+		'print-and-reparse, both on the parsed declarations and on the attribute-applied ones (AstPostProcessor.apply_attributes, as catparser.__main__ '
+		'does before emitting; model: Expand.applyAttributes), with a sweep over every array kind x element type x every combination of member '
+		'attributes (and integers x @sizeref, and the pairings apply_attributes must refuse); the property is also evaluated directly on the real '
+		'parser against descriptors computed from the generated structure, before and after the attributes are applied.'),
 	'level_note': (
 		'Trusted: Lean kernel + {propext, Classical.choice, Quot.sound}; hand-written model tied by differential execution only; lark\'s LALR engine '
 		'and contextual lexer are not modelled (the language and the objects are). print_parse_fixpoint keeps the hypotheses "at least one '
